@@ -165,6 +165,39 @@ theorem cache_transparent (w : World) (hist : List ApplyCall) (a : ApplyCall) :
     (applyLow w Cache.empty a.origin a.prog a.ptr a.name).1 :=
   (applyLow_inv w _ (inv_cacheAfter w _ (inv_empty w) hist) a.origin a.prog a.ptr a.name).1
 
+/-! ### the global call_origin and the target kinds of call_other -/
+
+theorem psteps_inv (w : World) : ∀ (hist : List PStep) (g : Cache × Nat), Inv w g.1 → Inv w (psteps w g hist).1 := by
+  intro hist
+  induction hist with
+  | nil => intro g h; exact h
+  | cons st rest ih =>
+    intro g h
+    apply ih
+    cases st with
+    | apply origin p ptr name => exact (applyLow_inv w g.1 h (localOrigin origin) p ptr name).2
+    | target p ptr name => exact (applyLow_inv w g.1 h (localOrigin originCallOther) p ptr name).2
+
+/-- **call_other_origin_is_call_other** — in the model of f_call_other / call_all_other (`doCall`, `callAllOther`,
+    `doCallTargets` all enter a target through `applyFn _ _ originCallOther`, i.e. a `.target` protocol step: the origin
+    is stored immediately before apply_low), every target is entered with origin CALL_OTHER and answers exactly as a
+    single call_other on an empty cache would: for every target kind, every position in an array, whatever value the
+    global `call_origin` was left with, and whatever applies (loading an object: valid_object, create; earlier targets;
+    any other apply) ran before.  In particular a static / private / protected function is refused at every position
+    (`visibility_lifted`). -/
+theorem call_other_origin_is_call_other (w : World) (hist : List PStep) (leftover : Nat) (p ptr : Nat) (name : NameKey) :
+    (pstep w (psteps w (Cache.empty, leftover) hist) (.target p ptr name)).1 =
+      (applyLow w Cache.empty originCallOther p ptr name).1 := by
+  have hinv := psteps_inv w hist (Cache.empty, leftover) (inv_empty w)
+  have hlo : localOrigin originCallOther = originCallOther := by decide
+  show (applyLow w _ (localOrigin originCallOther) p ptr name).1 = _
+  rw [hlo]
+  exact (applyLow_inv w _ hinv originCallOther p ptr name).1
+
+/-- apply_low always leaves the global zero, and an origin of 0 is the driver's -/
+theorem call_origin_consumed (w : World) (c : Cache) (co p ptr : Nat) (name : NameKey) :
+    (applyLowG w c co p ptr name).2.2 = 0 ∧ localOrigin 0 = originDriver := ⟨rfl, by decide⟩
+
 /-! ### frames -/
 
 /-- **frame_offsets_correct** — the NAME_INHERITED chasing of setup_new_frame / setup_inherited_frame: the frame
@@ -333,5 +366,13 @@ example :
 
 /-- a frame reached by chasing: slot 0 of p1 is inherited from p0 -/
 example : setupNewFrame exWorld 1 0 = some { prog := 0, fidx := 0, fio := 0, vio := 0 } := by decide
+
+/-- non-vacuity: an array target whose SECOND element has the static function, after an interleaved driver apply
+    (what loading an object does): refused, although the global was consumed in between -/
+example :
+    (pstep exWorld (psteps exWorld (Cache.empty, 0) [.target 0 2 2, .apply originDriver 1 7 7]) (.target 1 1 1)).1 = .fail ∧
+    (pstep exWorld (psteps exWorld (Cache.empty, 0) [.target 0 2 2, .apply originDriver 1 7 7]) (.apply originDriver 1 1 1)).1
+      = .call 0 0 0 0 := by
+  decide
 
 end NV.C07
